@@ -13,6 +13,12 @@ T = {
  "C02": ("Coq proof (statistics as explicit responsibility-weighted sums; additivity over every split by induction; refusal iff declared shapes differ) + correspondence",
          "Theorems over R: responsibilities are non-negative and sum to one, sum n = T, e_step of any concatenation = fold of stats_add, permutation invariance, add refuses exactly on shape mismatch; correspondence of acc_stats/transform/+/+= incl. every composition of small row sets and Dask chunks.",
          "As C01.", "DESIGN.md 4/C02"),
+ "C03": ("Coq proof (EM monotonicity of the ML M-step for all 8 switch settings by weighted Jensen + per-cell maximisers; loop theorem: exactly k* iterations, stop rule) + training correspondence",
+         "Theorem over R, any sizes: one EM iteration (any subset of means/variances/weights updated, no floor active) keeps the model well-formed and does not decrease the average training log-likelihood; the loop returns the n-times iterated model, n <= cap, stops exactly when the relative-change test first fires from iteration 2, never at iteration 1. GMMMachine.fit is compared with the float model on final parameters, iteration count and reported values (NumPy/Dask, caps, placed thresholds).",
+         "Model tied by differential runs; floors-inactive hypothesis as the property words it; Reals axioms.", "DESIGN.md 4/C03"),
+ "C05": ("Coq proof (MAP M-step algebra: alpha range, blends, no-evidence fallbacks, end points, epsilon-delta limits in the relevance factor, weight renormalisation; variance clause proved of the repaired definition and refuted with a witness of the faithful one) + correspondence + step-by-step oracle",
+         "Theorems over R about the per-component MAP helpers the model maps over components; the faithful variance blend (today's code, known finding D2) is proved NOT to satisfy the no-evidence clause. The oracle recomputes the stated blend from the implementation's own statistics after every iteration.",
+         "Known finding D2 listed in known_findings.json; means-only penalised-likelihood monotonicity validated numerically (partial).", "DESIGN.md 4/C05"),
 }
 
 NOT_YET = "check not built yet in this round (the proof technique applies; see DESIGN.md section 4)"
